@@ -560,9 +560,10 @@ def connhdr(chk, repo):
         return e3.env["close"]
 
     bad = 0
-    for ver, ka in itertools.product((V10, V11), (False, True)):
+    for ver, ka, rka in itertools.product((V10, V11), (False, True), (False, True)):
         hd = Dict()
-        env = {"headers": hd, "hdrs.CONNECTION": "Connection", "keep_alive": ka, "version": ver, "HttpVersion10": V10, "HttpVersion11": V11}
+        # (what the request asked for is an input of the clause since the fifth hunt: an HTTP/1.0 keep-alive that is declined is told so)
+        env = {"headers": hd, "hdrs.CONNECTION": "Connection", "keep_alive": ka, "version": ver, "HttpVersion10": V10, "HttpVersion11": V11, "request.keep_alive": rka}
         Evaluator(env).run([snd[0]])
         h = hd.get("Connection")
         close = receiver(rcv[0], ver, h, {"status_i": 200, "headers": Dict({"Content-Length": "1"}), "hdrs.CONTENT_LENGTH": "Content-Length", "hdrs.TRANSFER_ENCODING": "Transfer-Encoding"})
@@ -571,12 +572,12 @@ def connhdr(chk, repo):
             chk.violation("C02.connhdr", snd[0], "Connection header of the response", f"HTTP/{ver[0]}.{ver[1]} keep_alive={ka}: header={h!r} -> client decides close={close}",
                           "server and client reach different decisions on whether the connection stays open (one side reuses a connection the other closes, or waits on one that stays open)")
     if not bad:
-        chk.ok("C02.connhdr", snd[0], "response direction: (version, keep_alive) -> Connection header -> client close decision == not keep_alive on all 4 rows")
+        chk.ok("C02.connhdr", snd[0], "response direction: (version, keep_alive, what the request asked for) -> Connection header -> client close decision == not keep_alive on all 8 rows")
     # a response to HEAD carries no body and usually no framing header: the client must not take it for a close-delimited body while the server
     # keeps the connection alive (both ends have to agree on what happens to the connection)
     try:
         hd = Dict()
-        Evaluator({"headers": hd, "hdrs.CONNECTION": "Connection", "keep_alive": True, "version": V11, "HttpVersion10": V10, "HttpVersion11": V11}).run([snd[0]])
+        Evaluator({"headers": hd, "hdrs.CONNECTION": "Connection", "keep_alive": True, "version": V11, "HttpVersion10": V10, "HttpVersion11": V11, "request.keep_alive": True}).run([snd[0]])
         close = receiver(rcv[0], V11, hd.get("Connection"), {"status_i": 200, "headers": Dict(), "hdrs.CONTENT_LENGTH": "Content-Length", "hdrs.TRANSFER_ENCODING": "Transfer-Encoding", "self.response_with_body": False})
         if close:
             chk.violation("C02.connhdr", rcv[0], "close decision for a response without framing headers", "close = False when the response cannot have a body (HEAD)",
